@@ -1,12 +1,13 @@
 (** Judge for C04's event listeners which come and go: the windows of events each
     listener of a plan received from the real Broker against Model/Events. *)
-From CRS Require Import Lib.Bytes Model.Events Judge.Common.
+From CRS Require Import Lib.Bytes Model.Events Model.EventsCap Judge.Common.
 Open Scope N_scope.
 
 (** [lplan]: shells which live and die unheard before each listening window;
     [lwin]: what each listener got (0 connected, 1 disconnected);
     [lproblem]: some shell of the series was not accepted / not torn down / not announced once. *)
-Record lcase := mkl { lplan : list N; lwin : list (list N); lproblem : bool }.
+(** [lcaps]: capacity of each window's listener channel (a listener with a small channel reads only after its shell has gone). *)
+Record lcase := mkl { lplan : list N; lcaps : list N; lwin : list (list N); lproblem : bool }.
 Fixpoint leqb {A} (f : A -> A -> bool) (a b : list A) : bool :=
   match a, b with
   | [], [] => true
@@ -17,7 +18,8 @@ Definition wins_eqb (a b : list (list N)) : bool := leqb (leqb N.eqb) a b.
 Definition judge (c : lcase) : verdict :=
   first_fail [ (negb (lproblem c), v_violation 1);
                (wins_eqb (lwin c) (map (fun _ => [0; 1]) (lplan c)), v_violation 2);   (* the property: exactly one connected, one disconnected *)
-               (wins_eqb (lwin c) (plan_windows 1024 (lplan c)), v_mismatch 11) ].
+               (wins_eqb (lwin c) (plan_windows 1024 (lplan c)), v_mismatch 11);
+               (wins_eqb (lwin c) (cplan_windows (combine (lplan c) (map N.to_nat (lcaps c)))), v_mismatch 12) ].
 Definition judge_all (cs : list lcase) : list (N * N * N) := judge_list judge cs.
 Definition tag (c : lcase) : N := fold_left N.max (lplan c) 0.
 Definition judge_all_tags (cs : list lcase) : list N := map tag cs.
